@@ -76,7 +76,7 @@ def _method_dispatch(fn, e: ast.Call, meth: str, other: str) -> str:
     recv = fn.V(e.func.value)
     arms = []
     for cls in ("Tag", "TagList"):
-        info = next((i for i in fn.known.values() if i.spec.qual == f"{cls}.{meth}"), None)
+        info = fn.pick(f"{cls}.{meth}")
         if info is None or not info.available:
             raise _T.Untranslatable(f"method {cls}.{meth} is not translated")
         arms.append(f'| "{cls}" => (do pure {fn.call_known(info, [], [], recv=recv)})')
